@@ -10,6 +10,7 @@ import (
 	"errors"
 	"fmt"
 	"math"
+	"math/big"
 	"strconv"
 
 	internaljson "github.com/modelcontextprotocol/go-sdk/internal/json"
@@ -250,6 +251,19 @@ func DecodeID(raw json.RawMessage) (ID, error) {
 	var v any
 	if err := internaljson.Unmarshal(raw, &v); err != nil {
 		return ID{}, fmt.Errorf("%w: invalid ID: %v", ErrParse, err)
+	}
+	if _, isNumber := v.(float64); isNumber {
+		// A number that is not written as an integer literal (7.0, 7e0,
+		// 7.5): whether it denotes an integer is decided on its decimal
+		// text, not on the float64 it rounds to (9007199254740993.5 rounds
+		// to a whole number). One that does not is kept as it is written, so
+		// that it matches no integer ID and is echoed unchanged.
+		if r, ok := new(big.Rat).SetString(string(raw)); ok {
+			if r.IsInt() && r.Num().IsInt64() {
+				return Int64ID(r.Num().Int64()), nil
+			}
+			return ID{value: json.Number(raw)}, nil
+		}
 	}
 	return MakeID(v)
 }
